@@ -23,7 +23,7 @@ func sizeItem() *rapid.Generator[gen.Item] {
 	return rapid.Custom(func(t *rapid.T) gen.Item {
 		it := gen.Item{K: "if", P: rapid.Bool().Draw(t, "ptr")}
 		it.M = rapid.SampledFrom([]int{1, 2, 4, 5}).Draw(t, "text") | rapid.SampledFrom([]int{gen.MHeight, gen.MWidth, gen.MHeight | gen.MWidth}).Draw(t, "size")
-		txt := gen.Str(gen.StringOf([]string{"a", "bc", "\n", "\n\n", "漢", "", "x\ny\nz"}, 0, 3).Draw(t, "s"))
+		txt := gen.Str(gen.StringOf([]string{"a", "bc", "\n", "\n\n", "漢", "", "x\ny\nz", "\x1b[", "\x1b[1;31mFULL\x1b[", "\x1b[0m", "\x1b", "wider than declared"}, 0, 3).Draw(t, "s"))
 		it.S, it.G, it.E = txt, txt, txt
 		it.H = rapid.IntRange(-2, 6).Draw(t, "h")
 		it.W = rapid.IntRange(-2, 9).Draw(t, "w")
